@@ -849,3 +849,39 @@ Proof.
   intros Hs Hh Hr Hg H.
   exact (outcome_counts acts0 rs hl Hs s' evs r (run_outcome _ _ _ _ _ _ _ _ _ _ _ Hs Hh Hr Hg H)).
 Qed.
+
+(* ------------------------------------------------------------------ *)
+(* successive responses: the hypotheses hold again for the next one     *)
+(* ------------------------------------------------------------------ *)
+
+Lemma ssorted_keys l : StronglySorted by_byte l <-> StronglySorted Z.le (map abyte l).
+Proof.
+  induction l as [|a l IH]; cbn [map]; [split; constructor|]. split; intros H; inversion H as [|? ? Hs Hf]; subst; constructor.
+  - apply IH. exact Hs.
+  - exact (proj2 (Forall_map abyte (Z.le (abyte a)) l) Hf).
+  - apply IH. exact Hs.
+  - exact (proj1 (Forall_map abyte (Z.le (abyte a)) l) Hf).
+Qed.
+
+Lemma abyte_fire rs a : abyte (fire rs a) = abyte a.
+Proof. unfold fire. destruct (abyte a <? rs); [reflexivity | apply abyte_dec]. Qed.
+
+Lemma sorted_after_run acts0 thr rs hl lt i g ws s' evs r :
+  StronglySorted by_byte acts0 -> 0 <= hl -> rs > -1 -> (forall k, 0 < g k) ->
+  run g (shaped_start acts0 thr rs hl lt i) ws = (s', evs, r) ->
+  StronglySorted by_byte (acts s') /\ map abyte (acts s') = map abyte acts0 /\ map kind (acts s') = map kind acts0.
+Proof.
+  intros Hs Hh Hr Hg H.
+  destruct (outcome_counts acts0 rs hl Hs s' evs r (run_outcome _ _ _ _ _ _ _ _ _ _ _ Hs Hh Hr Hg H))
+    as [done [todo [E1 [E2 _]]]].
+  assert (Hk : map abyte (acts s') = map abyte acts0).
+  { rewrite E2, E1, !map_app, map_map. f_equal. apply map_ext. intros a. apply abyte_fire. }
+  split; [apply ssorted_keys; rewrite Hk; apply ssorted_keys; exact Hs|]. split; [exact Hk|].
+  rewrite E2, E1, !map_app, map_map. f_equal. apply map_ext. intros a.
+  unfold fire. destruct (abyte a <? rs); [reflexivity | apply kind_dec].
+Qed.
+
+(* a matching response after any previous context starts from [shaped_start] *)
+Lemma respond_matched prev acts thr rs hl :
+  fst (respond prev true acts thr true rs hl) = shaped_start acts thr rs hl (lat prev) (gi prev).
+Proof. reflexivity. Qed.
